@@ -1334,6 +1334,9 @@ tp_thread_proc(void *data) {
 	}
 
 	tpt_loop(tpt);
+	/* Messages that was accepted after stop message: do not lost them.
+	 * State is not RUNNING now: new messages are refused. */
+	tpt_msg_queue_drain(tpt->msg_queue);
 
 	if (NULL != tpt->tp->s.tpt_on_stop) {
 		tpt->tp->s.tpt_on_stop(tpt);
@@ -1399,11 +1402,9 @@ tp_thread_get_rr(tp_p tp) {
 
 	if (NULL == tp)
 		return (NULL);
-	tp->rr_idx ++;
-	if (tp->s.threads_max <= tp->rr_idx) {
-		tp->rr_idx = 0;
-	}
-	return (&tp->threads[tp->rr_idx]);
+	/* One atomic step: index is never out of range with many callers. */
+	return (&tp->threads[(__sync_add_and_fetch(&tp->rr_idx, 1) %
+	    tp->s.threads_max)]);
 }
 
 /* Return io_fd that handled by all threads. */
